@@ -428,6 +428,12 @@ func (H) Gen(prop string, seed uint64, tier string) *hx.Case {
 			o.NTx = r.Range(8, 45)
 			o.InBlockChain = r.Chance(0.7)
 		}
+		if (prop == "C04" || prop == "C06" || prop == "C11") && r.Chance(0.05) {
+			// a block that spends one output each of exactly 32 / 64 / 33 / 31 different confirmed transactions
+			// (the unspent set applies deletions in batches of 32 records)
+			o.DistinctSrc = []int{32, 64, 32, 64, 33, 31}[r.Intn(6)]
+			o.NTx, o.InBlockChain = o.DistinctSrc, false
+		}
 		mut := ""
 		if r.Chance(violP) {
 			if len(c05) > 0 && r.Chance(c05p) {
@@ -1402,7 +1408,11 @@ func (H) Run(t *testing.T, c *hx.Case) *hx.Outcome {
 				}
 			case "wallet_off":
 				if r.prop == "C17" {
-					wallet.Disable()
+					if common.Get(&common.WalletON) && (uint64(o.ID)^cfg.SchedSeed)%2 == 0 {
+						r.walletSaveRestore(o, when)
+					} else {
+						wallet.Disable()
+					}
 					r.out.Probe("index_switched_off", 1)
 				}
 			case "wallet_on":
@@ -1815,4 +1825,55 @@ func (r *run) compareWallet(when string) {
 		}
 	}
 	r.out.Probe("wallet_compared", 1)
+}
+
+
+// walletSaveRestore is what a shut-down and a start of the client do with the balance index: it is saved to the
+// "bal" folder, dropped, and read back (the client builds it from the unspent set when reading back fails).
+// In half of the cases the saved files are what a kill in the middle of the save leaves: one of them cut at an
+// arbitrary length (often inside its last records) or missing.  A restored index has to be the right one.
+func (r *run) walletSaveRestore(o *Op, when string) {
+	rg := hx.NewRng(uint64(o.ID)*7919 ^ r.cfg.SchedSeed)
+	common.CFG.AllBalances.SaveBalances = true
+	wallet.LAST_SAVED_FNAME = ""
+	common.Last.Mutex.Lock()
+	common.Last.Block = common.BlockChain.LastBlock() // (the client keeps it current after every block)
+	common.Last.Mutex.Unlock()
+	if er := wallet.SaveBalances(); er != nil {
+		r.viol("wallet.save", "%s: saving the balance index failed: %v", when, er)
+		return
+	}
+	dir := filepath.Join(r.dir, wallet.BALANCES_SUBDIR, wallet.LAST_SAVED_FNAME)
+	wallet.Disable()
+	wallet.VerifFreshProcess()
+	what := "saved completely"
+	if rg.Chance(0.5) {
+		if ents, err := os.ReadDir(dir); err == nil && len(ents) > 0 {
+			e := ents[rg.Intn(len(ents))]
+			fn := filepath.Join(dir, e.Name())
+			if st, err := os.Stat(fn); err == nil {
+				switch k := rg.Intn(4); {
+				case k == 0:
+					os.Remove(fn)
+					what = e.Name() + " missing"
+				case k == 1 && st.Size() > 1:
+					n := st.Size() - 1 - int64(rg.Intn(min(int(st.Size()-1), 60)))
+					os.Truncate(fn, n)
+					what = fmt.Sprintf("%s cut to %d of %d bytes", e.Name(), n, st.Size())
+				case st.Size() > 0:
+					n := int64(rg.Intn(int(st.Size())))
+					os.Truncate(fn, n)
+					what = fmt.Sprintf("%s cut to %d of %d bytes", e.Name(), n, st.Size())
+				}
+				r.out.Probe("saved_index_damaged_as_by_a_kill", 1)
+			}
+		}
+	}
+	if er := wallet.LoadBalances(); er != nil {
+		r.out.Probe("saved_index_refused", 1)
+		wallet.InitMaps(true) // (a process that starts has empty maps)
+		return               // stays off; a later wallet_on builds it from the set
+	}
+	r.out.Probe("saved_index_restored", 1)
+	r.compareWallet(when + " (index restored from the bal folder, " + what + ")")
 }
